@@ -40,7 +40,7 @@ VERUS_PROPS = {
 }
 
 
-KANI_PROPS = {"C02", "C04", "C05", "C06", "C11", "C13", "C16"}
+KANI_PROPS = {"C02", "C04", "C05", "C06", "C11", "C12", "C13", "C16"}
 KANI_TRUSTED = [
     "Kani 0.68 / CBMC 6.11: MIR -> goto translation, IEEE-754 float model, the harness code in /verif/kani (asserted contracts, universal-probe closures, exact token format for serde)",
     "libm functions are not modelled deterministically by CBMC: no Kani harness compares two calls of an elementary function",
@@ -343,7 +343,9 @@ def main(argv):
         failed=len(failed),
         undecided=len(undecided),
         known_findings=len(known_hits),
-        checker_cmd="bin/check %s --tier %s  (= cargo +nightly rustc -Zunpretty=expanded; tools/extract; %s)" % (pid, tier, " ; ".join(cmds[:3]) + " ; ..."),
+        checker_cmd=("bin/check %s --tier %s  (= " % (pid, tier))
+        + ("cargo +nightly rustc -Zunpretty=expanded; tools/extract; %s ; ..." % " ; ".join(cmds[:3]) if cmds else "")
+        + ((" ; " if cmds else "") + kinfo["cmd"] + " = CARGO_NET_OFFLINE=true cargo kani -Z function-contracts -Z stubbing --harness <h> per harness" if kinfo else "") + ")",
         trusted_base=(TRUSTED_BASE if (pid in VERUS_PROPS or pid == "C17") else []) + (KANI_TRUSTED if kinfo else []),
         samples=samples,
         backends=dict(verus="0.2026.09.13.671956e", smt="Z3 bundled with Verus; --smt-option smt.macro_finder=true for mod nl", kani="0.68.0 / CBMC 6.11 (SAT: default minisat/cadical of the bundle)" if kinfo else None),
@@ -353,11 +355,18 @@ def main(argv):
         units=info["units"],
         kani=kinfo,
         bounded=[r["harness"] + ": " + str(r.get("bound")) for r in (kinfo or {}).get("rows", []) if r.get("bound") and not str(r.get("bound")).startswith("none")],
-        explanation="obligations = exec functions under contract (mirror equality, definedness preconditions, i32 overflow) + flat non-linear lemmas whose property list contains this id",
+        explanation=("obligations = " + " + ".join(
+            (["exec functions under contract (mirror equality, definedness preconditions, i32 overflow) + flat non-linear / composition lemmas whose property list contains this id"] if info["units"] else [])
+            + (["one obligation per Kani harness on the real crate (all CBMC checks of the harness must succeed; bounds listed under 'bounded')"] if kinfo else []))),
         exhaustive=False,
     )
     assumptions = TRUSTED_BASE + ["float rounding is not modelled: every 'up to rounding' clause of the property is outside this claim"]
-    write_evidence(pid, tier, "proof", cov, assumptions, time.time() - t0, len(new_fail))
+    if pid == "C12":
+        # bounded stand-in only (Kani on n = 2 over a dyadic grid + exhaustive native enumeration of the same grid): never "proof"
+        assumptions = KANI_TRUSTED + ["BOUNDED: n = 2, entry grid -2..=2, divisions exact by construction; nothing is claimed for inputs that round, for n > 2, for the Jacobi eigen solver or nalgebra's decompositions"]
+        write_evidence(pid, tier, "other", cov, assumptions, time.time() - t0, len(new_fail))
+    else:
+        write_evidence(pid, tier, "proof", cov, assumptions, time.time() - t0, len(new_fail))
     if rc == 0:
         print("OK property=%s obligations=%d discharged=%d known_findings=%d wall=%.0fs" % (pid, len(rel), len(discharged), len(known_hits), time.time() - t0))
     return rc
